@@ -725,7 +725,12 @@ impl<'a> Reference<'a> {
                     // RSSL mimicry: the replacement list of an invocation has been expanded completely.  If tokens
                     // remain in the enclosing list (the next entry is not another end marker), RSSL looks at the
                     // expansion once more for a function-like name whose `(` follows the expansion.
-                    let follows = matches!(ts.last(), Some(RTok { k: RK::LParen, .. }));
+                    // (since fix f08088c RSSL's search for `(` skips line ends like any other white space)
+                    let mut j = ts.len();
+                    while j > 0 && ts[j - 1].k == RK::Nl {
+                        j -= 1;
+                    }
+                    let follows = j > 0 && ts[j - 1].k == RK::LParen;
                     if follows && out.len() > *start {
                         let again = match out.last() {
                             Some(RTok { k: RK::Id(g), hs }) => {
